@@ -44,6 +44,40 @@ func sharedWriteObligations(c *Ctx, rule, scopeName string, fns map[*ssa.Functio
 				pos = t.Pos(w.In.Pos())
 			}
 		}
+		// the address (or a slice) of a package-level variable handed to a callee lets the callee write it
+		allInstrs(f, func(in ssa.Instruction) {
+			ci, isCall := in.(ssa.CallInstruction)
+			if !isCall {
+				return
+			}
+			for _, a := range ci.Common().Args {
+				v := a
+				if sl, ok := v.(*ssa.Slice); ok {
+					v = sl.X
+				}
+				for {
+					if fa, ok := v.(*ssa.FieldAddr); ok {
+						v = fa.X
+						continue
+					}
+					if ia, ok := v.(*ssa.IndexAddr); ok {
+						v = ia.X
+						continue
+					}
+					break
+				}
+				g, ok := v.(*ssa.Global)
+				if !ok {
+					continue
+				}
+				ts := g.Type().String()
+				if strings.Contains(ts, "sync.Pool") || strings.Contains(ts, "sync.Mutex") || strings.Contains(ts, "sync.RWMutex") || strings.Contains(ts, "sync.Once") {
+					continue // synchronised by construction
+				}
+				bad = append(bad, fmt.Sprintf("address of package-level variable %s.%s passed to %s at %s", g.Pkg.Pkg.Name(), g.Name(), calleeName(in), t.Pos(in.Pos())))
+				pos = t.Pos(in.Pos())
+			}
+		})
 		detail := "writes no package-level variable"
 		if checkShared {
 			detail += " and nothing reachable through the loaded script or its syntax tree"
